@@ -1,0 +1,172 @@
+//go:build verif
+
+// Contracts for the verifier in /verif (comment-only file; compiled only with -tags verif).
+// JSON import of a ClientHello description (properties C07, C32) and the raw/tlsfingerprint.io import
+// drivers (C06, C07).
+//
+// encoding/json.Unmarshal is ASSUMED (/verif/contracts/trusted/json.vc): it returns an error or not and
+// leaves ARBITRARY well-typed values everywhere on the heap (no modifies clause: whole-heap havoc, the
+// only sound choice as long as the target `v any` cannot be named in a modifies clause).  So every
+// obligation below is proved for arbitrary decoded documents.  Consequences for the shape of the
+// contracts: (1) the decoded document lives in a function-local anonymous struct, which an `ensures`
+// clause cannot name, therefore the relation "decoded names -> stored ids" is stated as (checked) loop
+// invariants, which hold at loop exit with $k == len(list), and as assertions at the error call sites;
+// (2) the entry value of the receiver's fields does not survive the call of json.Unmarshal, therefore
+// "the existing prefix is kept" (append semantics) is NOT stated, only the suffix of length $k.
+
+package tls
+
+// ---------------------------------------------------------------------------------------------
+// (a) per-extension UnmarshalJSON
+
+// named groups: dicttls.DictSupportedGroupsNameIndexed, "GREASE" -> placeholder
+//@ spec jsGroupKnown(s) = s == "GREASE" || has(dicttls.DictSupportedGroupsNameIndexed, s)
+//@ spec jsGroupOf(s) = ite(s == "GREASE", 0x0a0a, dicttls.DictSupportedGroupsNameIndexed[s])
+// signature schemes: dicttls.DictSignatureSchemeNameIndexed, "GREASE" -> placeholder
+//@ spec jsSigKnown(s) = s == "GREASE" || has(dicttls.DictSignatureSchemeNameIndexed, s)
+//@ spec jsSigOf(s) = ite(s == "GREASE", 0x0a0a, dicttls.DictSignatureSchemeNameIndexed[s])
+// versions: a fixed list, no dicttls registry exists ("SSL 3.0" is refused)
+//@ spec jsVersKnown(s) = s == "GREASE" || s == "TLS 1.3" || s == "TLS 1.2" || s == "TLS 1.1" || s == "TLS 1.0"
+//@ spec jsVersOf(s) = ite(s == "GREASE", 0x0a0a, ite(s == "TLS 1.3", 0x0304, ite(s == "TLS 1.2", 0x0303, ite(s == "TLS 1.1", 0x0302, 0x0301))))
+// token binding key parameters: a fixed list
+//@ spec jsTbKnown(s) = s == "rsa2048_pkcs1.5" || s == "rsa2048_pss" || s == "ecdsap256"
+//@ spec jsTbOf(s) = ite(s == "rsa2048_pkcs1.5", 0, ite(s == "rsa2048_pss", 1, 2))
+
+//@ func (*SupportedCurvesExtension).UnmarshalJSON
+//@   property C07 C32
+//@   requires e != nil
+//@   loop 0 invariant -1 <= $rangeindex && $rangeindex < len(namedGroups.NamedGroupList)
+//@   loop 0 invariant known: forall j in 0..$k: jsGroupKnown(namedGroups.NamedGroupList[j])
+//@   loop 0 invariant len(e.Curves) >= $k
+//@   loop 0 invariant order: forall j in 0..$k: e.Curves[len(e.Curves) - $k + j] == jsGroupOf(namedGroups.NamedGroupList[j])
+//@   at before call Errorf#0: assert unknown: !jsGroupKnown(namedGroup)
+
+//@ func (*SupportedPointsExtension).UnmarshalJSON
+//@   property C07 C32
+//@   requires e != nil
+//@   loop 0 invariant -1 <= $rangeindex && $rangeindex < len(pointFormatList.ECPointFormatList)
+//@   loop 0 invariant known: forall j in 0..$k: has(dicttls.DictECPointFormatNameIndexed, pointFormatList.ECPointFormatList[j])
+//@   loop 0 invariant len(e.SupportedPoints) >= $k
+//@   loop 0 invariant order: forall j in 0..$k: e.SupportedPoints[len(e.SupportedPoints) - $k + j] == dicttls.DictECPointFormatNameIndexed[pointFormatList.ECPointFormatList[j]]
+//@   at before call Errorf#0: assert unknown: !has(dicttls.DictECPointFormatNameIndexed, pointFormat)
+
+//@ func (*SignatureAlgorithmsExtension).UnmarshalJSON
+//@   property C07 C32
+//@   requires e != nil
+//@   loop 0 invariant -1 <= $rangeindex && $rangeindex < len(signatureAlgorithms.Algorithms)
+//@   loop 0 invariant known: forall j in 0..$k: jsSigKnown(signatureAlgorithms.Algorithms[j])
+//@   loop 0 invariant len(e.SupportedSignatureAlgorithms) >= $k
+//@   loop 0 invariant order: forall j in 0..$k: e.SupportedSignatureAlgorithms[len(e.SupportedSignatureAlgorithms) - $k + j] == jsSigOf(signatureAlgorithms.Algorithms[j])
+//@   at before call Errorf#0: assert unknown: !jsSigKnown(sigScheme)
+
+//@ func (*SignatureAlgorithmsCertExtension).UnmarshalJSON
+//@   property C07 C32
+//@   requires e != nil
+//@   loop 0 invariant -1 <= $rangeindex && $rangeindex < len(signatureAlgorithms.Algorithms)
+//@   loop 0 invariant known: forall j in 0..$k: jsSigKnown(signatureAlgorithms.Algorithms[j])
+//@   loop 0 invariant len(e.SupportedSignatureAlgorithms) >= $k
+//@   loop 0 invariant order: forall j in 0..$k: e.SupportedSignatureAlgorithms[len(e.SupportedSignatureAlgorithms) - $k + j] == jsSigOf(signatureAlgorithms.Algorithms[j])
+//@   at before call Errorf#0: assert unknown: !jsSigKnown(sigScheme)
+
+//@ func (*FakeDelegatedCredentialsExtension).UnmarshalJSON
+//@   property C07 C32
+//@   requires e != nil
+//@   loop 0 invariant -1 <= $rangeindex && $rangeindex < len(signatureAlgorithms.Algorithms)
+//@   loop 0 invariant known: forall j in 0..$k: jsSigKnown(signatureAlgorithms.Algorithms[j])
+//@   loop 0 invariant len(e.SupportedSignatureAlgorithms) >= $k
+//@   loop 0 invariant order: forall j in 0..$k: e.SupportedSignatureAlgorithms[len(e.SupportedSignatureAlgorithms) - $k + j] == jsSigOf(signatureAlgorithms.Algorithms[j])
+//@   at before call Errorf#0: assert unknown: !jsSigKnown(sigScheme)
+
+//@ func (*UtlsCompressCertExtension).UnmarshalJSON
+//@   property C07 C32
+//@   requires e != nil
+//@   loop 0 invariant -1 <= $rangeindex && $rangeindex < len(certificateCompressionAlgorithms.Algorithms)
+//@   loop 0 invariant known: forall j in 0..$k: has(dicttls.DictCertificateCompressionAlgorithmNameIndexed, certificateCompressionAlgorithms.Algorithms[j])
+//@   loop 0 invariant len(e.Algorithms) >= $k
+//@   loop 0 invariant order: forall j in 0..$k: e.Algorithms[len(e.Algorithms) - $k + j] == dicttls.DictCertificateCompressionAlgorithmNameIndexed[certificateCompressionAlgorithms.Algorithms[j]]
+//@   at before call Errorf#0: assert unknown: !has(dicttls.DictCertificateCompressionAlgorithmNameIndexed, algorithm)
+
+//@ func (*PSKKeyExchangeModesExtension).UnmarshalJSON
+//@   property C07 C32
+//@   requires e != nil
+//@   loop 0 invariant -1 <= $rangeindex && $rangeindex < len(pskKeyExchangeModes.Modes)
+//@   loop 0 invariant known: forall j in 0..$k: has(dicttls.DictPSKKeyExchangeModeNameIndexed, pskKeyExchangeModes.Modes[j])
+//@   loop 0 invariant len(e.Modes) >= $k
+//@   loop 0 invariant order: forall j in 0..$k: e.Modes[len(e.Modes) - $k + j] == dicttls.DictPSKKeyExchangeModeNameIndexed[pskKeyExchangeModes.Modes[j]]
+//@   at before call Errorf#0: assert unknown: !has(dicttls.DictPSKKeyExchangeModeNameIndexed, mode)
+
+//@ func (*SupportedVersionsExtension).UnmarshalJSON
+//@   property C07 C32
+//@   requires e != nil
+//@   loop 0 invariant -1 <= $rangeindex && $rangeindex < len(supportedVersions.Versions)
+//@   loop 0 invariant known: forall j in 0..$k: jsVersKnown(supportedVersions.Versions[j])
+//@   loop 0 invariant len(e.Versions) >= $k
+//@   loop 0 invariant order: forall j in 0..$k: e.Versions[len(e.Versions) - $k + j] == jsVersOf(supportedVersions.Versions[j])
+//@   at before call Errorf#0: assert ssl3: version == "SSL 3.0"
+//@   at before call Errorf#1: assert unknown: !jsVersKnown(version)
+
+//@ func (*FakeTokenBindingExtension).UnmarshalJSON
+//@   property C07 C32
+//@   requires e != nil
+//@   loop 0 invariant -1 <= $rangeindex && $rangeindex < len(tokenBindingAccepter.TokenBindingKeyParameters)
+//@   loop 0 invariant known: forall j in 0..$k: jsTbKnown(tokenBindingAccepter.TokenBindingKeyParameters[j])
+//@   loop 0 invariant len(e.KeyParameters) >= $k
+//@   loop 0 invariant order: forall j in 0..$k: e.KeyParameters[len(e.KeyParameters) - $k + j] == jsTbOf(tokenBindingAccepter.TokenBindingKeyParameters[j])
+//@   at before call Errorf#0: assert unknown: !jsTbKnown(param)
+
+// key_share: group names through DictSupportedGroupsNameIndexed, "GREASE" -> placeholder, the JSON
+// key_exchange bytes become Data for EVERY entry.
+// DEFECT_C32_keyshare_data: the raw-bytes import ((*KeyShareExtension).Write, clause `dropped`) keeps the
+// key_exchange bytes only for GREASE entries and stores nil for every real group (so that ApplyPreset
+// generates a fresh key); the JSON import keeps the bytes of real groups too, so a JSON description
+// that carries "key_exchange" for e.g. x25519 yields different extension parameters than the raw
+// import of the same ClientHello (and ApplyPreset then sends that stale public key).
+//@ func (*KeyShareExtension).UnmarshalJSON
+//@   property C07 C32
+//@   requires e != nil
+//@   loop 0 invariant -1 <= $rangeindex && $rangeindex < len(keyShareClientHello.ClientShares)
+//@   loop 0 invariant known: forall j in 0..$k: jsGroupKnown(keyShareClientHello.ClientShares[j].Group)
+//@   loop 0 invariant len(e.KeyShares) >= $k
+//@   loop 0 invariant order: forall j in 0..$k: e.KeyShares[len(e.KeyShares) - $k + j].Group == jsGroupOf(keyShareClientHello.ClientShares[j].Group)
+//@   loop 0 invariant data: forall j in 0..$k: e.KeyShares[len(e.KeyShares) - $k + j].Data == keyShareClientHello.ClientShares[j].KeyExchange
+//@   loop 0 invariant DEFECT_C32_keyshare_data: $k >= 1 && e.KeyShares[len(e.KeyShares) - 1].Group != 0x0a0a ==> isnil(e.KeyShares[len(e.KeyShares) - 1].Data)
+//@   at before call Errorf#0: assert unknown: !jsGroupKnown(clientShare.Group)
+
+// ---------------------------------------------------------------------------------------------
+// (d) ExtensionFromID: total; which concrete (fresh, zero-valued) extension object an id gives.
+// known ids (33 cases), every GREASE id -> *UtlsGREASEExtension, everything else -> nil.
+//@ spec extKnownID(id) = id == extensionServerName || id == extensionStatusRequest || id == extensionSupportedCurves || id == extensionSupportedPoints || id == extensionSignatureAlgorithms || id == extensionALPN || id == extensionStatusRequestV2 || id == extensionSCT || id == utlsExtensionPadding || id == extensionExtendedMasterSecret || id == fakeExtensionTokenBinding || id == utlsExtensionCompressCertificate || id == fakeRecordSizeLimit || id == fakeExtensionDelegatedCredentials || id == extensionSessionTicket || id == extensionPreSharedKey || id == extensionSupportedVersions || id == extensionPSKModes || id == extensionSignatureAlgorithmsCert || id == extensionKeyShare || id == extensionQUICTransportParameters || id == extensionNextProtoNeg || id == utlsExtensionApplicationSettings || id == utlsExtensionApplicationSettingsNew || id == fakeOldExtensionChannelID || id == fakeExtensionChannelID || id == utlsExtensionECH || id == extensionRenegotiationInfo
+//@ func ExtensionFromID
+//@   property C06 C07 C32
+//@   modifies nothing
+//@   ensures total: ret != nil <==> extKnownID(id) || grease16(id)
+//@   ensures fresh: ret != nil ==> fresh(ret)
+//@   ensures t0: id == extensionServerName ==> istype(ret, *SNIExtension)
+//@   ensures t5: id == extensionStatusRequest ==> istype(ret, *StatusRequestExtension)
+//@   ensures t10: id == extensionSupportedCurves ==> istype(ret, *SupportedCurvesExtension) && len(ret.(*SupportedCurvesExtension).Curves) == 0
+//@   ensures t11: id == extensionSupportedPoints ==> istype(ret, *SupportedPointsExtension) && len(ret.(*SupportedPointsExtension).SupportedPoints) == 0
+//@   ensures t13: id == extensionSignatureAlgorithms ==> istype(ret, *SignatureAlgorithmsExtension) && len(ret.(*SignatureAlgorithmsExtension).SupportedSignatureAlgorithms) == 0
+//@   ensures t16: id == extensionALPN ==> istype(ret, *ALPNExtension) && len(ret.(*ALPNExtension).AlpnProtocols) == 0
+//@   ensures t17: id == extensionStatusRequestV2 ==> istype(ret, *StatusRequestV2Extension)
+//@   ensures t18: id == extensionSCT ==> istype(ret, *SCTExtension)
+//@   ensures t21: id == utlsExtensionPadding ==> istype(ret, *UtlsPaddingExtension) && ret.(*UtlsPaddingExtension).PaddingLen == 0 && !ret.(*UtlsPaddingExtension).WillPad && ret.(*UtlsPaddingExtension).GetPaddingLen == nil
+//@   ensures t23: id == extensionExtendedMasterSecret ==> istype(ret, *ExtendedMasterSecretExtension)
+//@   ensures t24: id == fakeExtensionTokenBinding ==> istype(ret, *FakeTokenBindingExtension) && len(ret.(*FakeTokenBindingExtension).KeyParameters) == 0
+//@   ensures t27: id == utlsExtensionCompressCertificate ==> istype(ret, *UtlsCompressCertExtension) && len(ret.(*UtlsCompressCertExtension).Algorithms) == 0
+//@   ensures t28: id == fakeRecordSizeLimit ==> istype(ret, *FakeRecordSizeLimitExtension) && ret.(*FakeRecordSizeLimitExtension).Limit == 0
+//@   ensures t34: id == fakeExtensionDelegatedCredentials ==> istype(ret, *FakeDelegatedCredentialsExtension) && len(ret.(*FakeDelegatedCredentialsExtension).SupportedSignatureAlgorithms) == 0
+//@   ensures t35: id == extensionSessionTicket ==> istype(ret, *SessionTicketExtension) && !ret.(*SessionTicketExtension).Initialized
+//@   ensures t41: id == extensionPreSharedKey ==> istype(ret, *FakePreSharedKeyExtension) && len(ret.(*FakePreSharedKeyExtension).Identities) == 0 && len(ret.(*FakePreSharedKeyExtension).Binders) == 0
+//@   ensures t43: id == extensionSupportedVersions ==> istype(ret, *SupportedVersionsExtension) && len(ret.(*SupportedVersionsExtension).Versions) == 0
+//@   ensures t45: id == extensionPSKModes ==> istype(ret, *PSKKeyExchangeModesExtension) && len(ret.(*PSKKeyExchangeModesExtension).Modes) == 0
+//@   ensures t50: id == extensionSignatureAlgorithmsCert ==> istype(ret, *SignatureAlgorithmsCertExtension) && len(ret.(*SignatureAlgorithmsCertExtension).SupportedSignatureAlgorithms) == 0
+//@   ensures t51: id == extensionKeyShare ==> istype(ret, *KeyShareExtension) && len(ret.(*KeyShareExtension).KeyShares) == 0
+//@   ensures t57: id == extensionQUICTransportParameters ==> istype(ret, *QUICTransportParametersExtension)
+//@   ensures tnpn: id == extensionNextProtoNeg ==> istype(ret, *NPNExtension)
+//@   ensures talps: id == utlsExtensionApplicationSettings ==> istype(ret, *ApplicationSettingsExtension) && len(ret.(*ApplicationSettingsExtension).SupportedProtocols) == 0
+//@   ensures talpsnew: id == utlsExtensionApplicationSettingsNew ==> istype(ret, *ApplicationSettingsExtensionNew) && len(ret.(*ApplicationSettingsExtensionNew).SupportedProtocols) == 0
+//@   ensures tchidold: id == fakeOldExtensionChannelID ==> istype(ret, *FakeChannelIDExtension) && ret.(*FakeChannelIDExtension).OldExtensionID
+//@   ensures tchid: id == fakeExtensionChannelID ==> istype(ret, *FakeChannelIDExtension) && !ret.(*FakeChannelIDExtension).OldExtensionID
+//@   ensures tech: id == utlsExtensionECH ==> istype(ret, *GREASEEncryptedClientHelloExtension)
+//@   ensures treneg: id == extensionRenegotiationInfo ==> istype(ret, *RenegotiationInfoExtension) && ret.(*RenegotiationInfoExtension).Renegotiation == RenegotiateNever
+//@   ensures tgrease: grease16(id) ==> istype(ret, *UtlsGREASEExtension) && ret.(*UtlsGREASEExtension).Value == 0 && len(ret.(*UtlsGREASEExtension).Body) == 0
